@@ -2,7 +2,7 @@
 tmatmul_exact).  Ties: K2 real _tmatmul over the symbolic carrier with literal zeros outside the
 triangle (values, store order, clipped read sets), K4 real types."""
 import random
-from vlib import core, symrun, flow
+from vlib import core, symrun, flow, shapes
 
 PID = "C17"
 TAGS = {"g": "Fastor::UpLoType::General", "l": "Fastor::UpLoType::Lower", "u": "Fastor::UpLoType::Upper"}
@@ -33,17 +33,28 @@ def sym_groups(tier, seed):
     return groups
 
 def real_groups(tier, seed):
+    """one representative of every (row part, column part) class pair of _tmatmul_base / _tmatmul_base_masked per
+    (ISA, element type) — see vlib/shapes.py — with seeded tags and K (quick), every tag pair (thorough)"""
     rng = random.Random(seed * 911 + 9)
     isas = core.QUICK_ISAS if tier == "quick" else core.ALL_ISAS
     groups = []
     pairs = [(a, b) for a in "glu" for b in "glu"]
+    T = lambda x: TAGS[x].replace("Fastor::", "")
     for isa in isas:
         for t in ["float", "double", "int32_t", "int64_t"]:
+            sz = 4 if t in ("float", "int32_t") else 8
+            mn = shapes.covering_mn(isa, sz, rng)
+            if tier == "quick" and t.startswith("int"):
+                mn = rng.sample(mn, max(len(mn) * 2 // 5, 1))
             calls = []
-            for i in range(8 if tier == "quick" else 40):
+            for i, (m, n) in enumerate(mn):
+                for (a, b) in (pairs if tier == "thorough" else [rng.choice(pairs)]):
+                    k = rng.choice([1, 2, m, n, rng.randint(1, max(m, n) + 2), rng.randint(1, max(m, n) + 2)])
+                    calls.append("run_treal<%s,%d,%d,%d,%s,%s>(%du);" % (t, m, k, n, T(a), T(b), seed * 17 + i))
+            for i in range(6 if tier == "quick" else 30):     # small random shapes as before
                 m, k, n = rng.randint(1, 14), rng.randint(1, 14), rng.randint(1, 20)
                 a, b = rng.choice(pairs)
-                calls.append("run_treal<%s,%d,%d,%d,%s,%s>(%du);" % (t, m, k, n, TAGS[a].replace("Fastor::", ""), TAGS[b].replace("Fastor::", ""), seed * 17 + i))
+                calls.append("run_treal<%s,%d,%d,%d,%s,%s>(%du);" % (t, m, k, n, T(a), T(b), seed * 17 + 1000 + i))
             groups.append({"key": "%s/%s" % (isa, t), "header": "tmatmul_real.h", "isa": isa, "opt": "-O2", "calls": calls,
                            "pre": "static bool g_verbose=false;"})
     return groups
